@@ -691,7 +691,8 @@ def param_roles(prog, g, _depth=0):
             for bi, si, st in h.stmts():
                 if st["k"] == "assign" and st["rv"]["k"] == "binop":
                     if st["rv"]["op"] == "Rem" and deep(h, st["rv"]["r"], 3) == tok:
-                        role.add("digits_per_group")
+                        # a bit position of the output taken modulo the parameter: rounding to units; a digit index: grouping
+                        role.add("unit_rem" if ".offset" in deep(h, st["rv"]["l"], 6) else "digits_per_group")
                     if st["rv"]["op"] == "Div" and deep(h, st["rv"]["r"], 3) == tok:
                         role.add("div")
         # a parameter handed unchanged to a private helper of the formatter module takes the role it has there
@@ -712,6 +713,8 @@ def param_roles(prog, g, _depth=0):
                                 role.add(r_)
         if "base" in role:
             roles.append("base")
+        elif "div" in role and "unit_rem" in role and "digits_per_group" not in role:
+            roles.append("address_unit")        # positions are both divided by it and rounded to multiples of it
         elif "digits_per_group" in role:
             roles.append("digits_per_group")
         elif "div" in role:
